@@ -2714,10 +2714,16 @@ impl LineBuf {
 			MotionCmd(count,Motion::EndOfLine) => {
 				let pos = if count == 1 {
 					self.end_of_line()
-				} else if let Some((_,end)) = self.select_lines_down(count.saturating_sub(1)) {
-					end
 				} else {
-					self.end_of_line()
+					// The end of the line 'count - 1' lines below: if there is no such line, the motion fails
+					let target_line = self.cursor_line_number() + count - 1;
+					if target_line >= self.line_count() {
+						return MotionKind::Null
+					}
+					let Some((_,end)) = self.line_bounds(target_line) else {
+						return MotionKind::Null
+					};
+					end
 				};
 				// 'pos' is the exclusive end of the line: its newline, if it has one, sits just before
 				if pos > 0 && self.grapheme_at(pos - 1) == Some("\n") {
@@ -2767,7 +2773,18 @@ impl LineBuf {
 				target.exclusive = false;
 				for _ in 0..count {
 					match motion {
-						Motion::BackwardChar => target.sub(1),
+						Motion::BackwardChar => {
+							// As far left as the line allows; no movement at all is a failure
+							let at_line_start = target.get() == 0 || self.grapheme_at(target.get() - 1) == Some("\n");
+							if at_line_start {
+								if target.get() == self.cursor.get() {
+									return MotionKind::Null
+								}
+								break
+							}
+							target.sub(1);
+							continue
+						}
 						Motion::ForwardChar => {
 							if !self.is_selecting() && self.cursor.exclusive && self.grapheme_at(target.get()) == Some("\n") {
 								// On the newline of an empty line: there is nothing to move over
@@ -2795,9 +2812,6 @@ impl LineBuf {
 							continue
 						}
 						_ => unreachable!()
-					}
-					if self.grapheme_at(target.get()) == Some("\n") {
-						return MotionKind::Null
 					}
 				}
 				MotionKind::On(target.get())
@@ -2955,6 +2969,13 @@ impl LineBuf {
 				self.saved_col = Some(cursor_col);
 				MotionKind::LineOffset(-(lines_up as isize))
 			}
+			MotionCmd(line,Motion::GotoLine) => {
+				// Line numbers are one-indexed; past the end means the last line
+				let target_line = line.saturating_sub(1).min(self.line_count() - 1);
+				let cursor_col = self.cursor_col();
+				self.saved_col = Some(cursor_col);
+				MotionKind::LineOffset(target_line as isize - self.cursor_line_number() as isize)
+			}
 			MotionCmd(_count,Motion::EndOfBuffer) => {
 				// The text after a final newline is not a line to go to
 				let lines_down = (self.line_count() - 1).saturating_sub(self.cursor_line_number());
@@ -2963,9 +2984,13 @@ impl LineBuf {
 				MotionKind::LineOffset(lines_down as isize)
 			}
 			MotionCmd(count,Motion::ToColumn) => {
-				let start = ClampedUsize::new(self.start_of_line(), self.cursor.max, false);
+				// The column, or the last character of the line when it is shorter
+				let (start,mut end) = self.this_line();
+				if end > start && self.grapheme_at(end - 1) == Some("\n") {
+					end -= 1;
+				}
 				let target_col = count.saturating_sub(1);
-				MotionKind::On(start.ret_add(target_col))
+				MotionKind::On((start + target_col).min(end.saturating_sub(1).max(start)))
 			}
 			MotionCmd(count,Motion::RangeInclusive(ref range)) |
 			MotionCmd(count,Motion::Range(ref range)) => {
